@@ -237,13 +237,18 @@ theorem start_drains (st st' : State) (hns : st.mode.started = false)
   · exact key (preFunc st) (by rw [(preFunc_facts st).2.2.1]; exact hns) h
   · exact key { st with hasFd := true } hns h
 
-/-- `tickit_term_pause` writes the driver's teardown bytes but does *not* flush (`term_pause_flushes`,
-    `driver_teardown_flushes` are read from the source and are `false`): with a buffer, the mode-reset
-    sequences can still be pending when the process stops itself.  Outside C11 (no flush is claimed);
-    recorded as a finding of the reading. -/
-theorem pause_leaves_pending :
-    ∃ st st', WF st ∧ Attached st ∧ step st .pause = .ok st' ∧ st'.buf ≠ [] :=
-  ⟨fresh 64 true false { started := true }, _, by unfold WF fresh; decide, Or.inl rfl, rfl, by decide⟩
+/-- `tickit_term_pause` writes the driver's teardown bytes but does *not* flush (`term_pause_flushes` and
+    `driver_teardown_flushes` are read from the source; both are `false` in the tree as found): with a buffer,
+    the mode-reset sequences can still be pending when the caller stops the process (`examples/demo-pen.c`
+    does exactly `tickit_term_pause(term); raise(SIGSTOP);` on a 4096-byte buffer).  C11 claims nothing about
+    pause — no flush was asked for — so this is not a violation of C11; it is recorded as a finding of the
+    reading (it belongs to C12).  The statement is conditional on the extracted flags, so it stays provable
+    (vacuously) once a flush is added there. -/
+theorem pause_leaves_pending (hsrc : (term_pause_flushes || driver_teardown_flushes) = false) :
+    ∃ st st', WF st ∧ Attached st ∧ step st .pause = .ok st' ∧ st'.buf ≠ [] := by
+  first
+  | exact ⟨fresh 64 true false { started := true }, _, by unfold WF fresh; decide, Or.inl rfl, rfl, by decide⟩
+  | exact absurd hsrc (by decide)
 
 example : ∃ st', step { (fresh 8 true false {}) with buf := [1, 2, 3] } .flush = .ok st' ∧
     st'.out = [.data .func [1, 2, 3]] ∧ st'.buf = [] := ⟨_, rfl, rfl, rfl⟩
